@@ -193,6 +193,7 @@ type Result struct {
 	Panicked bool
 	Receipts []*types.Receipt
 	Obs      [][]string
+	Writes   [][]string // per transaction: keys the driver itself wrote through StateDB
 	Line     string
 }
 
@@ -255,6 +256,7 @@ func (w *World) Run(bi int, units []Unit) *Result {
 			rr = append(rr, RenderReceipt(r))
 			o := Observations(txs[i])
 			res.Obs = append(res.Obs, o)
+			res.Writes = append(res.Writes, Writes(txs[i]))
 			oo = append(oo, "["+strings.Join(o, ",")+"]")
 		}
 		res.Receipts = rs.Receipts
@@ -262,4 +264,47 @@ func (w *World) Run(bi int, units []Unit) *Result {
 	}
 	w.Emit(opline, res.Line)
 	return res
+}
+
+// OverlapGroup rewrites a generated group so that a later member touches a state key an earlier member
+// wrote and reported (begin() runs once per group, StartTx() resets the written-key list per member,
+// and accepted members' receipt KVs are already in the transaction cache):
+//
+//	hidden:   member j writes the key through StateDB without reporting it   (must fail: ErrNotAllowMemSetKey)
+//	differ:   member j writes it and reports the key with a different value  (key reported: allowed)
+//	reported: member j writes and reports it                                 (allowed in its own namespace)
+//
+// sameExec makes member j use member i's executor (own namespace), otherwise the key is foreign to it.
+// acctKey != nil uses the head sender's coins account key (written by the framework with the fee) instead.
+func OverlapGroup(txs []TxDesc, i, j int, shape string, sameExec bool, acctKey []byte, val []byte) {
+	var key []byte
+	if acctKey != nil {
+		key = acctKey
+	} else {
+		for _, o := range txs[i].ExecOps {
+			if o.Kind == "S" {
+				key = o.K
+				break
+			}
+		}
+		if key == nil {
+			ks := []byte("mavl-" + string(txs[i].Execer) + "-k0")
+			key = ks
+			txs[i].ExecOps = append([]Op{{Kind: "S", K: key, V: []byte("g0")}}, txs[i].ExecOps...)
+		}
+	}
+	if sameExec && string(txs[j].Execer) != string(txs[i].Execer) {
+		txs[j].Execer = txs[i].Execer
+		txs[j].LocOps = nil // the local program was generated for the other executor's prefix
+	}
+	var ops []Op
+	switch shape {
+	case "hidden":
+		ops = []Op{{Kind: "H", K: key, V: val}}
+	case "differ":
+		ops = []Op{{Kind: "H", K: key, V: val}, {Kind: "D", K: key, V: append([]byte("d"), val...)}}
+	default:
+		ops = []Op{{Kind: "S", K: key, V: val}}
+	}
+	txs[j].ExecOps = append(ops, txs[j].ExecOps...)
 }
